@@ -554,6 +554,51 @@ func (e *SEnv) evalCall(n *SCall) Val {
 				return Val{T: nil, C: []Term{wrapInt(a, bt)}}
 			}
 		}
+	case "lockinv": // lockinv(obj, "mu"): the declared lock invariant of obj.mu
+		obj := e.eval(n.Args[0])
+		mu := n.Args[1].(*SStrL).V
+		pt, ok := obj.T.Underlying().(*types.Pointer)
+		if !ok {
+			sfail("lockinv: pointer expected")
+		}
+		ts := e.r.typeSpecOf(pt.Elem())
+		if ts == nil {
+			sfail("lockinv: no type contract for %v", pt.Elem())
+		}
+		saved, had := e.vars["self"]
+		e.vars["self"] = obj
+		var cs []Term
+		for _, c := range ts.LockInv[mu] {
+			cs = append(cs, e.boolOf(e.eval(c.E)))
+		}
+		if had {
+			e.vars["self"] = saved
+		} else {
+			delete(e.vars, "self")
+		}
+		return specBool(And(cs...))
+	case "sliceoff": // offset of a slice within its backing array
+		a := e.eval(n.Args[0])
+		if a.T == nil || !isSlice(a.T) {
+			sfail("sliceoff needs a slice")
+		}
+		return specInt(a.C[1])
+	case "bytesat": // bytesat(ref, i): byte i of the backing array identified by ref
+		ref, i := e.intOf(e.eval(n.Args[0])), e.intOf(e.eval(n.Args[1]))
+		u8 := types.Typ[types.Uint8]
+		return Val{T: u8, C: []Term{Select(Select(e.st.heapGet("M", u8, layout(u8)[0]), ref), i)}}
+	case "sliceid": // identity of the backing array of a slice
+		a := e.eval(n.Args[0])
+		if a.T == nil || !isSlice(a.T) {
+			sfail("sliceid needs a slice")
+		}
+		return specInt(a.C[0])
+	case "prefixof": // prefixof(a, b): slice a is b[:len(a)] (same memory)
+		a, b := e.eval(n.Args[0]), e.eval(n.Args[1])
+		if a.T == nil || b.T == nil || !isSlice(a.T) || !isSlice(b.T) {
+			sfail("prefixof needs two slices")
+		}
+		return specBool(And(Eq(a.C[0], b.C[0]), Eq(a.C[1], b.C[1]), Le(a.C[2], b.C[2])))
 	case "math":
 		return specInt(e.intOf(e.eval(n.Args[0])))
 	case "has": // has(m, k): key k present in map m
@@ -573,7 +618,7 @@ func (e *SEnv) evalCall(n *SCall) Val {
 		name := n.Args[0].(*SStrL).V
 		g, ok := e.st.ghost["spec:"+name]
 		if !ok {
-			g = Sym("ghost_"+sanitize(name), SInt)
+			g = Sym(fmt.Sprintf("ghost_%s@%d", sanitize(name), e.st.epoch), SInt)
 			e.st.ghost["spec:"+name] = g
 		}
 		return Val{C: []Term{g}}
@@ -639,7 +684,13 @@ func (e *SEnv) evalCall(n *SCall) Val {
 		var args []Term
 		for _, a := range n.Args {
 			v := e.eval(a)
-			args = append(args, v.C...)
+			switch {
+			case v.T != nil && isSlice(v.T) && len(layout(elemOf(v.T))) == 1:
+				// content-based: (array, offset, length)
+				args = append(args, e.st.backingArr(v, elemOf(v.T), 0), v.C[1], v.C[2])
+			default:
+				args = append(args, v.C...)
+			}
 		}
 		if strings.HasPrefix(n.Fun, "P_") {
 			return specBool(uf(n.Fun, SBool, args...))
@@ -677,6 +728,7 @@ type ModTarget struct {
 	Lo, Hi Term
 	Map   *Val
 	All   bool
+	Ghost string
 }
 
 func (e *SEnv) evalMod(x SExpr) ModTarget {
@@ -721,6 +773,8 @@ func (e *SEnv) evalMod(x SExpr) ModTarget {
 		case "mapof":
 			b := e.eval(n.Args[0])
 			return ModTarget{Map: &b}
+		case "ghost":
+			return ModTarget{Ghost: n.Args[0].(*SStrL).V}
 		case "deref":
 			b := e.eval(n.Args[0])
 			return ModTarget{Place: e.r.placeOf(b), All: true}
